@@ -11,14 +11,30 @@
 // numbered as node.Validators; the abstract BLS key of a holder is the rank of its public key among
 // all holders in byte order (`keys=` of the reset op), its abstract address the holder index.
 //
-//	reset nv=<n> extra=<e> seed=<s> batch=<b> w=<w0,..> thr=<certThreshold> keys=<rank0,..>   -> ok
+//	reset nv=<n> extra=<e> seed=<s> batch=<b> w=<w0,..> thr=<certThreshold> keys=<rank0,..> [twin=1]   -> ok
+//	   twin=1: history-independence oracle (twin.go) - every certificate-protocol call is repeated on a
+//	   twin node freshly started on the same database with a copy of the pool and must give the same answer
 //	params <key> <certThreshold> <addr:key:weight,...>   BFT parameters stored under <key>          -> ok
 //	noparams <key>                                       the entry was pruned                        -> ok
 //	extend <k>                                           k honest blocks with the empty commit      -> ok
 //	change <pre> <cert> <holder:weight,...>              block carrying a validator change          -> ok
 //	reorg [<pre> <cert> <holder:weight,...>]             the tip is deleted and replaced by a block of
 //	                                                     the next slot (carrying that validator change)    -> ok
-//	state <tip> <mhpc> <mhc> <rh>                        rh = aggregateCommit.height of block mhpc   -> ok
+//	rewind <k>                                           the k tip blocks are deleted (Executer.deleteBlock)  -> ok
+//	alt <s> empty | own | agg <h> <bits> <sig> | change <pre> <cert> <holder:weight,...>
+//	                                                     one block s >= 2 slots after the tip (so that it differs
+//	                                                     from a block deleted before): with the empty commit, with
+//	                                                     GetAggregateCommit() (as `block`), with the given aggregate
+//	                                                     commit (as `vblock`), or carrying a validator
+//	                                                     change                                      -> ok | applied|rejected|err|panic
+//	restart                                              the node is restarted on its database (the pool is
+//	                                                     memory only and starts empty)               -> ok
+//	state <tip> <mhpc> <mhc> <rh> <np>                   rh = aggregateCommit.height of block mhpc, np = number
+//	                                                     of params/noparams ops since the reset      -> ok
+//	   Sync rule (both sides, purely syntactic): after extend / change / reorg / rewind / alt empty|change the
+//	   model does not know the chain until the next matching `state` op; pool and certificate ops in between
+//	   print `unsynced` and do nothing.  No generator emits such a sequence - the rule (with np) keeps the
+//	   shrinking of a disagreement from drifting to sequences in which the model was never told the chain.
 //	sc <v>:<h>:<variant> ...                             one postSingleCommits gossip message        -> ignore|reject|accept|panic
 //	   variants: ok | sigby=<w> | fork | wrongid | chain2 | garbage | inf | short | relabel=<h2>
 //	raw <hex>                                            undecodable / empty message                 -> reject|ignore
@@ -83,6 +99,10 @@ const (
 	SigStall            = "c06-certification-stalls-after-validator-change"
 	SigRetention        = "c06-cleanup-removes-acceptable-commit"
 	SigDiverged         = "c06-harness-state-diverged"
+	// SigHistory: a certificate-protocol entry point answered differently from a node freshly
+	// restarted on the same database with the same pool (twin.go): the answer depends on something
+	// the executer remembered across chain changes.
+	SigHistory = "c06-history-dependent"
 )
 
 var otherChainID = []byte{4, 0, 0, 0x77}
@@ -95,6 +115,11 @@ type session struct {
 	// tainted: the pool received entries that bypass validation (inject, Certify with a foreign key);
 	// the "own aggregate is accepted" oracle does not apply any more.
 	tainted bool
+	// twin: the history-independence oracle is active (reset ... twin=1)
+	twin bool
+	// sync rule: dirty = the chain changed and no `state` op followed yet; np = params/noparams ops so far
+	dirty bool
+	np    int
 }
 
 func (s *session) close() {
@@ -178,6 +203,8 @@ func (s *session) reset(words []string) string {
 	s.n = n
 	s.lastSel = nil
 	s.tainted = false
+	s.twin = a["twin"] == "1"
+	s.dirty, s.np = false, 0
 	_, s.rank = keyRanks(seed, nv+extra)
 	if joinInts(s.rank) != a["keys"] {
 		return "diverged keys=" + joinInts(s.rank)
@@ -279,7 +306,7 @@ func (s *session) rankOf(holder int) int {
 
 func (s *session) stateLine() string {
 	_, mhpc, mhc := s.n.BFTHeights()
-	return fmt.Sprintf("state %d %d %d %d", s.n.Height(), mhpc, mhc, s.removalHeight())
+	return fmt.Sprintf("state %d %d %d %d %d", s.n.Height(), mhpc, mhc, s.removalHeight(), s.np)
 }
 
 // ---- construction of commits and signatures ----
@@ -574,7 +601,8 @@ func (s *session) specAccepts(h uint32, bits []byte, sp sigSpec) bool {
 
 // ---- ops ----
 
-func (s *session) exec(op string, idx int) (out string, fails []corr.Fail) {
+// exec0 executes one op; exec (twin.go) wraps it with the history-independence oracle.
+func (s *session) exec0(op string, idx int) (out string, fails []corr.Fail) {
 	defer func() {
 		if r := recover(); r != nil {
 			out = "panic"
@@ -592,8 +620,13 @@ func (s *session) exec(op string, idx int) (out string, fails []corr.Fail) {
 		return "no-node", nil
 	}
 	n := s.n
+	if s.syncRule(w) {
+		return "unsynced", nil
+	}
 	_, mhpc, mhc := n.BFTHeights()
 	switch w[0] {
+	case "rewind", "alt", "restart":
+		return s.execChain(w, op, idx)
 	case "params":
 		k := uint32(atoi(w[1]))
 		if !s.existParams(k) || s.paramsLine(k) != op {
@@ -685,6 +718,7 @@ func (s *session) exec(op string, idx int) (out string, fails []corr.Fail) {
 			fail(SigDiverged, "real %s", s.stateLine())
 			return "diverged " + s.stateLine(), fails
 		}
+		s.dirty = false
 		return "ok", nil
 	case "liveness":
 		if H := uint32(atoi(w[1])); mhc < H {
@@ -978,7 +1012,7 @@ func (prop) RunImpl(c corr.Case) ([]string, []corr.Fail) {
 	if r, ok := planned.LoadAndDelete(strings.Join(c.Ops, "\n")); ok {
 		// the case was executed on a real node while it was generated (gen.go, planner.do)
 		pr := r.(plannedRun)
-		return pr.outs, pr.fails
+		return pr.outs, firstPerSig(pr.fails)
 	}
 	s := &session{}
 	defer s.close()
@@ -989,7 +1023,21 @@ func (prop) RunImpl(c corr.Case) ([]string, []corr.Fail) {
 		out = append(out, o)
 		fails = append(fails, f...)
 	}
-	return out, fails
+	return out, firstPerSig(fails)
+}
+
+// firstPerSig keeps the first failure of every signature: a defect that shows at one op usually shows at
+// every later op of the case as well, and each reported failure is minimised separately.
+func firstPerSig(fails []corr.Fail) []corr.Fail {
+	seen := map[string]bool{}
+	var res []corr.Fail
+	for _, f := range fails {
+		if !seen[f.Sig] {
+			seen[f.Sig] = true
+			res = append(res, f)
+		}
+	}
+	return res
 }
 
 // Classify names the behaviour a case exercised.
@@ -1021,6 +1069,14 @@ func (prop) Classify(c corr.Case, out []string) string {
 			set["change"] = true
 		case "reorg":
 			set["reorg"] = true
+		case "rewind", "restart":
+			set[w[0]] = true
+		case "alt":
+			if len(w) > 2 && (w[2] == "own" || w[2] == "agg") {
+				set["alt-"+w[2]+"-"+o] = true
+			} else if len(w) > 2 {
+				set["alt-"+w[2]] = true
+			}
 		}
 	}
 	if len(set) == 0 {
